@@ -1,5 +1,5 @@
 """C06 — evaluation is stack-balanced on every path (dynamic depth monitor at every executed step + completion balance)."""
-import json, random
+import json, random, re
 import vlib, progsuite
 from gen import proggen
 
@@ -30,10 +30,37 @@ def run(ctx):
                     cid = str(len(cases))
                     cases.append(['RUN', cid, s, vlib.esc(src), '-', '-'])
                     meta[cid] = f'reapply-{n}'
+        # shapes the generator above avoids because the unchanged tree is known to break the property on them
+        # (recorded in known_findings.json; reported on every run): an else-chain whose last arm is conditional,
+        # `|>` without a conditional before it, a reapply in operand position
+        for k, src in enumerate(['() ?> 5 |> () ?> 6', '$ ?> 7 |> $ ?> 8', '1 == 2 ?> 7 |> 1 == 3 ?> 8 |> $! ?> 9', '2 (() ?> 5 |> () ?> 6)', '{ $ ?> 1 |> $ == 3 ?> 2 } <~ ()']):
+            for s_ in progsuite.STORES:
+                cid = f'nofinal{k}{s_[0]}'
+                cases.append(['RUN', cid, s_, vlib.esc(src), '-', '-']); meta[cid] = 'finding-stream'
+        for k, src in enumerate(['5 |> 6', '5 |> 6 |> 7', '2 (5 |> 6)']):
+            for s_ in progsuite.STORES:
+                cid = f'barelse{k}{s_[0]}'
+                cases.append(['RUN', cid, s_, vlib.esc(src), '-', '-']); meta[cid] = 'finding-stream'
+        for k, src in enumerate(['$ < 3 ?> 5 + ^~ ($ + 1) |> 0', '$ < 2 ?> (1, ^~ $ + 1) |> 9', '{ $ < 3 ?> 2 * ^~ $ + 1 |> 1 } <~ 0']):
+            for s_ in progsuite.STORES:
+                cid = f'opreapply{k}{s_[0]}'
+                cases.append(['RUN', cid, s_, vlib.esc(src), '(i 0)', '-']); meta[cid] = 'finding-stream'
     ctx.evaluations = len(cases)
     if not h_ok:
         return
-    impl = vlib.run_impl(cases, 'c06', per_case_s=5.0)
+    # every case runs as DEPTH: the built program, the (address, depth) pairs observed while the real VM ran it, the outcome
+    dcases = [['DEPTH'] + c[1:6] for c in cases]
+    draw = vlib.run_impl(dcases, 'c06', per_case_s=5.0)
+    impl, chk_rows = {}, []
+    for c in cases:
+        r = draw.get(c[1], 'missing')
+        parts = r.split(' @@ ')
+        if len(parts) == 3:
+            impl[c[1]] = parts[2]
+            chk_rows.append(['DEPTHCHK', c[1], vlib.esc(r)])
+        else:
+            impl[c[1]] = r
+    chk = vlib.run_model(chk_rows, 'c06chk') if (drv_ok and chk_rows) else {}
     stats = {}
     loops = {}
     for c in cases:
@@ -41,6 +68,20 @@ def run(ctx):
         src = vlib.unesc(c[3])
         ctx.distinct.add((c[3], c[2]))
         k = pi['kind']
+        sv = chk.get(c[1])
+        if sv is not None and ';;' not in src:
+            if sv.startswith('static=unbalanced'):
+                stats['static-unbalanced'] = stats.get('static-unbalanced', 0) + 1
+                ctx.fail('oracle', c, impl=impl.get(c[1]), model=sv, expect='static=balanced', note=f'abstract interpretation of the built instruction stream (verified analysis absDepth) finds an instruction reached with two different operand depths, or an operand underflow, or an expression end at a depth other than 1: {sv} in {src!r}')
+                continue
+            elif sv.startswith('mismatch'):
+                stats['arity-mismatch'] = stats.get('arity-mismatch', 0) + 1
+                ctx.fail('oracle', c, impl=impl.get(c[1]), model=sv, expect='observed depth = static depth at every executed instruction', note=f'the real VM reached an instruction at an operand depth other than the one every path must have ({sv}): an instruction consumed or produced a different number of operands than its arity — {src!r}')
+                continue
+            elif sv.startswith('static=balanced'):
+                stats['static-balanced+observed-agree'] = stats.get('static-balanced+observed-agree', 0) + 1
+            elif sv != 'skip':
+                ctx.fail('corr', c, impl=impl.get(c[1]), model=sv, note='DEPTHCHK could not read the dump')
         if ';;' in src:
             k = 'excluded-terminator'
         elif pi['kind'] == 'ok':
@@ -52,6 +93,9 @@ def run(ctx):
                 ctx.fail('oracle', c, impl=impl.get(c[1]), expect='depth=ok', note=f'pending-operand count differs by path, is negative, or is not 1 where an expression ends: {src!r}')
             if meta.get(c[1], '').startswith('reapply-'):
                 loops.setdefault(c[2], []).append((int(meta[c[1]].split('-')[1]), pi['steps']))
+        elif pi['kind'] == 'runerr' and re.search(r'No references in register|Not enough register', pi.get('msg', '') or impl.get(c[1], '')):
+            k = 'underflow'
+            ctx.fail('oracle', c, impl=impl.get(c[1]), expect='operands present', note=f'the VM ran out of pending operands (operand depth would drop below zero): {src!r}')
         elif pi['kind'] in ('runerr', 'steplimit'):
             if pi['depth'] != 'ok':
                 k = 'depth'
@@ -60,11 +104,11 @@ def run(ctx):
             ctx.fail('oracle', c, impl=impl.get(c[1]), expect='a result', note=f'{pi["kind"]} while running {src!r}')
         stats[k] = stats.get(k, 0) + 1
     ctx.rule = ('RUN/PROG cases: generated core-language programs (small-exhaustive + random, no bare `;;`) on both stores with a per-step monitor in the harness: operand count relative to the frame base recorded per instruction address (conflict = two paths reach it with different depths), never negative, exactly 1 when EndExpression executes; '
-                'on completion registers, input-value stack and frame chain back at their initial depths; reapply loops with iteration counts 0..N; distinct = distinct (source, store).')
+                'on completion registers, input-value stack and frame chain back at their initial depths; the verified abstract interpretation absDepth is run on every built instruction stream (all paths) and every observed (address, depth) pair must equal its result; reapply loops with iteration counts 0..N; distinct = distinct (source, store).')
     ctx.suites = {'RUN': len(cases), 'outcomes': stats}
     if progs:
         ctx.distribution = progsuite.feature_distribution(progs)
     for c in cases[:: max(1, len(cases) // 6)][:6]:
         ctx.sample({'source': vlib.unesc(c[3]), 'store': c[2], 'impl': impl.get(c[1])}, cap=80)
     ctx.trusted += ['depth monitor in harness/src/runs.rs (frame-relative operand count through public getters + verif hooks)',
-                    'static all-paths analysis (absDepth) is not built yet: paths are those the generated inputs/hosts drive']
+                    'static all-paths analysis: Props/C06Static.lean absDepth (verified: absDepth_sound, absDepth_endExpression_one, absDepth_operands_present) run by the driver on the implementation`s dumped instruction stream; parseDump in Driver/CompileDrv.lean reads the dump']
